@@ -95,7 +95,7 @@ func init() {
 			if tier == "thorough" {
 				return 40000
 			}
-			return 1600
+			return 4000
 		},
 		Floor: func(tier string) int { return 300 },
 		Run:   runC01,
